@@ -41,13 +41,16 @@ var stNames = []stName{
 
 type stVal struct{ text, canon string }
 
-var stVals = []stVal{{"5", "5"}, {"60", "60"}, {"1.5", "f1.5"}, {"(1+2)", "3"}, {"2d1", "2"}}
+var stVals = []stVal{{"5", "5"}, {"60", "60"}, {"1.5", "f1.5"}, {"(1+2)", "3"}, {"2d1", "2"}, {"(1+2)*3", "9"}, {"(2)d1", "2"}}
 var stValsSigned = []stVal{{"-3", "-3"}}
 
 func stAssignSpellings(full bool) []stEdit {
 	var out []stEdit
-	for _, n := range stNames {
+	for ni, n := range stNames {
 		vals := stVals
+		if !full && ni != 0 && ni != 5 {
+			vals = stVals[:5] // quick: the values that continue after a parenthesised group with one plain and one quoted name only
+		}
 		for _, v := range vals {
 			// direct: name immediately followed by the value
 			out = append(out, stEdit{Type: "set", Name: n.name, Val: v.canon, Src: n.spelled + v.text})
@@ -91,9 +94,12 @@ func stModSpellings(full bool) []stEdit {
 	if full {
 		ops = append(ops, opf{" + ", "+"}, opf{" += ", "+"}, opf{" -= ", "-="})
 	}
-	for _, n := range stNames {
+	for ni, n := range stNames {
 		for _, o := range ops {
-			for _, v := range stVals {
+			for vi, v := range stVals {
+				if !full && vi >= 5 && ni != 0 && ni != 5 {
+					continue
+				}
 				txt := v.text
 				if o.op == "-" {
 					txt = "-" + v.text // the captured text of the compatibility form includes the sign
@@ -183,7 +189,17 @@ func c18Run(raw json.RawMessage) harn.Result {
 	// "&name=..." edit (separator '' or ' ') is swallowed as the right operand of '&'
 	parenThenComputed := false
 	for i := 0; i+1 < len(c.Edits); i++ {
-		if strings.HasSuffix(c.Edits[i].Src, ")") && strings.HasPrefix(c.Edits[i+1].Src, "&") && i < len(c.Seps) && !strings.Contains(c.Seps[i], ",") {
+		// the value of edit i starts with '(' (whatever follows the closing parenthesis); in the generated spellings the only
+		// other '(' is the one of a multiplier, which follows '*'
+		v := ""
+		src := c.Edits[i].Src
+		for k := 0; k < len(src); k++ {
+			if src[k] == '(' && (k == 0 || src[k-1] != '*') {
+				v = src[k:]
+				break
+			}
+		}
+		if strings.HasPrefix(v, "(") && strings.HasPrefix(c.Edits[i+1].Src, "&") && i < len(c.Seps) && !strings.Contains(c.Seps[i], ",") {
 			parenThenComputed = true
 		}
 	}
@@ -230,8 +246,8 @@ func c18Run(raw json.RawMessage) harn.Result {
 		if g.Val != e.Val {
 			viol("C18:value", fmt.Sprintf("edit #%d %q: value %s, expected %s", i, e.Src, g.Val, e.Val))
 		}
-		if e.Type == "set.x1" && g.Extra != e.Extra {
-			viol("C18:extra", fmt.Sprintf("edit #%d %q: extra %s, expected %s", i, e.Src, g.Extra, e.Extra))
+		if g.Extra != e.Extra { // every edit: an edit without a multiplier must be reported without one ("" = nil)
+			viol("C18:extra", fmt.Sprintf("edit #%d %q: extra %q, expected %q", i, e.Src, g.Extra, e.Extra))
 		}
 		if e.Type == "mod" {
 			if g.Op != e.Op {
